@@ -147,19 +147,7 @@ func (ex *Exec) applyContract(fr *Frame, fn *ssa.Function, ct *Contract, args []
 			w := st.worlds[ctx.World]
 			neu := &World{S: Fresh("S_after_"+fn.Name(), SStore), X: Fresh("X_after_"+fn.Name(), SXState), E: Fresh("E_after_"+fn.Name(), w.E.Sort)}
 			// inferred modifies clause: the key families (and dependency effects) the callee's current body can write
-			rec := ex.discover(func() {
-				st2 := pre.Clone()
-				saveStack := ex.callStack
-				ex.runFunc(fn, args, nil, st2, nil)
-				ex.callStack = saveStack
-			})
-			ws := rec.byWorld[ctx.World]
-			if rec.byWorld[-1] != nil {
-				ws = rec.byWorld[-1]
-			}
-			if ws == nil {
-				ws = &WriteSet{fams: map[int]bool{}}
-			}
+			ws := ex.fnWriteSet(fn, args, pre, ctx)
 			ex.frameFor(st, w, neu, ws)
 			st.worlds[ctx.World] = neu
 		}
@@ -205,6 +193,71 @@ func (ex *Exec) applyContract(fr *Frame, fn *ssa.Function, ct *Contract, args []
 		ex.unsupp("contract %s: %s", ct.Func, m)
 	}
 	return []Result{{st, ret, nil}}
+}
+
+// fnWriteSet: what fn can write in the world of its context argument. Discovered once per function from a generic
+// state (all paths feasible) and cached; functions taking callbacks are discovered at the call site with the actual
+// closures. While another discovery is running, the set is merged into its recorders.
+func (ex *Exec) fnWriteSet(fn *ssa.Function, args []Val, pre *State, ctx *CtxV) *WriteSet {
+	hasCallback := false
+	for _, p := range fn.Params {
+		if _, ok := p.Type().Underlying().(*types.Signature); ok {
+			hasCallback = true
+		}
+	}
+	var ws *WriteSet
+	if cached, ok := ex.wsCache[fn]; ok && !hasCallback {
+		ws = cached
+	} else if hasCallback {
+		rec := ex.discover(func() {
+			st2 := pre.Clone()
+			saveStack := ex.callStack
+			ex.runFunc(fn, args, nil, st2, nil)
+			ex.callStack = saveStack
+		})
+		ws = rec.byWorld[ctx.World]
+		if rec.byWorld[-1] != nil {
+			ws = rec.byWorld[-1]
+		}
+	} else {
+		var gctx *CtxV
+		var world int
+		rec := ex.discover(func() {
+			st2 := NewState()
+			world = st2.NewWorld(World{S: Fresh("dS", SStore), X: Fresh("dX", SXState), E: Fresh("dE", elogDT.Sort)})
+			var gargs []Val
+			for _, p := range fn.Params {
+				gargs = append(gargs, ex.symbolicParam(st2, p, world, &gctx))
+			}
+			saveStack, saveTop := ex.callStack, ex.topFn
+			ex.callStack = nil
+			ex.runFunc(fn, gargs, nil, st2, nil)
+			ex.callStack, ex.topFn = saveStack, saveTop
+		})
+		ws = rec.byWorld[world]
+		if rec.byWorld[-1] != nil {
+			ws = rec.byWorld[-1]
+		}
+		if ws == nil {
+			ws = &WriteSet{fams: map[int]bool{}}
+		}
+		ex.wsCache[fn] = ws
+	}
+	if ws == nil {
+		ws = &WriteSet{fams: map[int]bool{}}
+	}
+	// an enclosing discovery learns the callee's writes
+	if ctx != nil {
+		for _, r := range ex.recorders {
+			w := r.ws(ctx.World)
+			for f := range ws.fams {
+				w.fams[f] = true
+			}
+			w.all = w.all || ws.all
+			w.effects = w.effects || ws.effects
+		}
+	}
+	return ws
 }
 
 // pureResult: the result of a function with a `pure` contract is an uninterpreted function of the store, the
